@@ -4,6 +4,7 @@ import XeofsProofs.Lemmas.WhitenRank
 import XeofsProofs.Lemmas.PsdSVD
 import XeofsProofs.Lemmas.Small
 import XeofsProofs.Props.C01
+import XeofsProofs.Lemmas.WhitenModel
 /-!
 # C16 — fractional whitening and PCA reduction are exact, invertible changes of basis
 
@@ -88,5 +89,41 @@ theorem src_whitener_maps :
 
 /-- the covariance that is whitened is normalised with the number of samples -/
 theorem src_cov_denominator (nn : ℝ) : Gen.whitenerCovDenominator nn = nn := rfl
+
+/-! ### the same statements on the executable model (`XM.whitenFit`, `XM.pcaTransform`, … — run by the driver next to the real
+`Whitener` / `PCA` objects) -/
+
+/-- **un-whitening restores the data** for every centred matrix, including a rank-deficient covariance -/
+theorem model_unwhiten {n p : ℕ} (X : XM.Mat n p 𝕜) (V : XM.Mat p p 𝕜) (hV : (V.toMatrix)ᴴ * V.toMatrix = 1)
+    (hV' : V.toMatrix * (V.toMatrix)ᴴ = 1) (s : Fin p → ℝ) (c : ℝ) (keep : Fin p → Bool) (hs : ∀ i, keep i = true → 0 < s i)
+    (hm : ∀ i, keep i = false → s i = 0)
+    (hC : (X.toMatrix)ᴴ * X.toMatrix = V.toMatrix * diagonal (fun i => ((c * s i : ℝ) : 𝕜)) * (V.toMatrix)ᴴ) (alpha : ℝ) :
+    (XM.whitenInverseData (XM.whitenFit V s keep alpha) (XM.whitenTransform (XM.whitenFit V s keep alpha) X)).toMatrix = X.toMatrix :=
+  XP.WhitenM.model_unwhiten X V hV hV' s c keep hs hm hC alpha
+
+theorem model_T_Tinv {p : ℕ} (V : XM.Mat p p 𝕜) (hV : (V.toMatrix)ᴴ * V.toMatrix = 1) (hV' : V.toMatrix * (V.toMatrix)ᴴ = 1)
+    (s : Fin p → ℝ) (hs : ∀ i, 0 < s i) (alpha : ℝ) :
+    (XM.whitenFit V s (fun _ => true) alpha).T.toMatrix * (XM.whitenFit V s (fun _ => true) alpha).Tinv.toMatrix = 1 :=
+  XP.WhitenM.model_T_Tinv V hV hV' s hs alpha
+
+theorem model_whitened_cov {p : ℕ} (V : XM.Mat p p 𝕜) (hV : (V.toMatrix)ᴴ * V.toMatrix = 1) (s : Fin p → ℝ) (hs : ∀ i, 0 < s i)
+    (alpha : ℝ) :
+    ((XM.whitenFit V s (fun _ => true) alpha).T.toMatrix)ᴴ * specPow V.toMatrix s 1 * (XM.whitenFit V s (fun _ => true) alpha).T.toMatrix
+      = specPow V.toMatrix s alpha :=
+  XP.WhitenM.model_whitened_cov V hV s hs alpha
+
+theorem model_components_there_and_back {p k : ℕ} (V : XM.Mat p p 𝕜) (hV : (V.toMatrix)ᴴ * V.toMatrix = 1)
+    (hV' : V.toMatrix * (V.toMatrix)ᴴ = 1) (s : Fin p → ℝ) (hs : ∀ i, 0 < s i) (alpha : ℝ) (P : XM.Mat p k 𝕜) :
+    (XM.whitenInverseComps (XM.whitenFit V s (fun _ => true) alpha)
+        (XM.whitenTransformComps (XM.whitenFit V s (fun _ => true) alpha) P)).toMatrix = P.toMatrix :=
+  XP.WhitenM.model_components_there_and_back V hV hV' s hs alpha P
+
+theorem model_pca_there_and_back {p k r : ℕ} (V : XM.Mat p k 𝕜) (hV : (V.toMatrix)ᴴ * V.toMatrix = 1) (Q : XM.Mat k r 𝕜) :
+    (XM.pcaTransformComps V (XM.pcaInverseComps V Q)).toMatrix = Q.toMatrix :=
+  XP.WhitenM.model_pca_there_and_back V hV Q
+
+theorem model_pca_transform_inverse {p k m : ℕ} (V : XM.Mat p k 𝕜) (hV : (V.toMatrix)ᴴ * V.toMatrix = 1) (Z : XM.Mat m k 𝕜) :
+    (XM.pcaTransform V (XM.pcaInverseData V Z)).toMatrix = Z.toMatrix :=
+  XP.WhitenM.model_pca_transform_inverse V hV Z
 
 end C16
